@@ -24,7 +24,7 @@ ASSUMPTIONS = ["traces contain no addresses: graph instances are numbered per ru
                "of executors overlap (concurrent building is not claimed by the code base: GraphRuntimeRegistry is unsynchronised)",
                "g++-12 -O1 (and -fsanitize=thread for the thorough tier) build of the working tree with harness-side shims"]
 FLOORS = {"context_comparisons": {"quick": 500, "thorough": 4500}, "reused_builder_runs": {"quick": 100, "thorough": 1200},
-          "concurrent_case_runs": {"quick": 150, "thorough": 2000}, "global_state_reads": {"quick": 500, "thorough": 3000}, "captured_error_values": {"quick": 15, "thorough": 120},
+          "concurrent_case_runs": {"quick": 150, "thorough": 2000}, "global_state_reads": {"quick": 350, "thorough": 3000}, "captured_error_values": {"quick": 15, "thorough": 120},
           "polymorphic_values_compared": {"quick": 60, "thorough": 400},
           "recordings_repeated_over_carried_state": {"quick": 10, "thorough": 60},
           "rebuilds_under_one_selected_context": {"quick": 6, "thorough": 40}}
